@@ -21,6 +21,7 @@ import ast
 import copy as _copy
 import itertools
 import os
+import sys
 import re as _re
 import struct as _struct
 
@@ -1031,6 +1032,8 @@ class Interp:
         if isinstance(obj, ModuleStub):
             if name in obj.attrs:
                 return obj.attrs[name]
+            if getattr(obj, 'lazy', False):
+                return lazy_module_attr(obj, name)
             raise Unsupported('module attribute %s.%s' % (obj.name, name))
         if isinstance(obj, ClassVal):
             if name == '__name__':
@@ -2051,6 +2054,8 @@ class Interp:
     def s_ImportFrom(self, s, env):
         m = get_module_stub(s.module)
         for a in s.names:
+            if a.name not in m.attrs and getattr(m, 'lazy', False) and a.name != '*':
+                lazy_module_attr(m, a.name)
             if a.name not in m.attrs:
                 raise Unsupported('from %s import %s' % (s.module, a.name))
             env.vars[a.asname or a.name] = m.attrs[a.name]
@@ -2728,7 +2733,21 @@ _MODULES = {}
 def get_module_stub(name):
     if name in _MODULES:
         return _MODULES[name]
+    if name.split('.')[0] in getattr(sys, 'stdlib_module_names', ()):
+        # a standard-library module without a model: importing it is harmless, every function of it is outside the subset
+        # (a call is handed to the external hook, else Unsupported = undecided on the paths that reach the call)
+        m = ModuleStub(name, {})
+        m.lazy = True
+        _MODULES[name] = m
+        return m
     raise Unsupported('import of module %s' % name)
+
+
+def lazy_module_attr(m, name):
+    if name.startswith('__'):
+        raise Unsupported('module attribute %s.%s' % (m.name, name))
+    m.attrs[name] = _unsupported_builtin('%s.%s' % (m.name, name))
+    return m.attrs[name]
 
 
 def _init_modules():
